@@ -198,14 +198,31 @@ func runArchiveScenario(seed uint64, size int, t *Trace) error {
 			report()
 		}
 	}
+	regAgain := ""
+	reRegister := func() {
+		// the registration that was accepted, submitted again (same key, same signature): refused, and the key
+		// file - the only public file that is written by truncating - is not touched a second time
+		if !registered {
+			return
+		}
+		before, _ := os.Stat(filepath.Join(e.Dir, "gcaPubKey.dat"))
+		err := e.RegisterDefault()
+		after, _ := os.Stat(filepath.Join(e.Dir, "gcaPubKey.dat"))
+		if err == nil {
+			regAgain = "a second registration was accepted"
+		} else if before != nil && after != nil && !after.ModTime().Equal(before.ModTime()) {
+			regAgain = "the GCA key file was written again"
+		}
+	}
 	bursts := map[string]func(){
+		"register-again":         reRegister,
 		"device+report":          newDevice,
 		"register+device":        func() { register(); newDevice() },
 		"rotation":               func() { glow.SetCurrentTimeslot(glow.CurrentTimeslot() + 1); e.S.VerifMigrateNow() },
 		"reports":                func() { report(); report(); report() },
 		"device+report+rotation": func() { newDevice(); e.S.VerifMigrateNow(); newDevice() },
 	}
-	names := []string{"device+report", "register+device", "rotation", "reports", "device+report+rotation"}
+	names := []string{"device+report", "register+device", "rotation", "reports", "device+report+rotation", "register-again"}
 	files := append(append([]string{}, server.PublicFiles...), "server.pubkey")
 	priv := e.S.VerifPrivateKey()
 	for it := 0; it < size; it++ {
@@ -245,6 +262,9 @@ func runArchiveScenario(seed uint64, size int, t *Trace) error {
 			} else {
 				obs = checkArchive(fs, e.Dir, priv)
 			}
+		}
+		if regAgain != "" && obs == "ok" {
+			obs = "VIOLATION:" + regAgain
 		}
 		t.Count("archive")
 		t.Count(fmt.Sprintf("archive.injections:%d", len(where)))
